@@ -56,10 +56,11 @@ def attrs_of(st, loc, mid, args):
 
 
 class Bundle:
-    __slots__ = ("loc", "brk", "ents")
+    __slots__ = ("loc", "brk", "ents", "eloc")
 
     def __init__(self, loc, brk, ents):
         self.loc, self.brk, self.ents = loc, brk, ents
+        self.eloc = loc.split("+")[0]     # `en-GB+en`: a bundle built with two locales; errors name its FIRST locale
 
     def state(self, mid):
         st = self.ents.get(mid, "m")
@@ -115,13 +116,13 @@ def spec_value(bundles, key):
         if st in HAS_VALUE:
             text, res_errs = value_of(st, b.loc, mid, args)
             if res_errs:
-                errs.append("R(%s@%s:%s)" % (mid, b.loc, "+".join(res_errs)))
+                errs.append("R(%s@%s:%s)" % (mid, b.eloc, "+".join(res_errs)))
             return text, errs
         if st != "m":
             seen_message = True
-            errs.append("MV(%s@%s)" % (mid, b.loc))
+            errs.append("MV(%s@%s)" % (mid, b.eloc))
         else:
-            errs.append("MM(%s@%s)" % (mid, b.loc))
+            errs.append("MM(%s@%s)" % (mid, b.eloc))
     errs.append(("MV(%s@-)" if seen_message else "MM(%s@-)") % mid)
     return None, errs
 
@@ -161,11 +162,11 @@ def spec_batch(bundles, keys, want_value):
                     v = value_of(st, b.loc, mid, args)
                     res_errs = (v[1] if v else []) + [e for (_, _, es) in attrs_of(st, b.loc, mid, args) for e in es]
                 if res_errs:
-                    errs.append("R(%s@%s:%s)" % (mid, b.loc, "+".join(res_errs)))
+                    errs.append("R(%s@%s:%s)" % (mid, b.eloc, "+".join(res_errs)))
             elif want_value and st != "m":
-                errs.append("MV(%s@%s)" % (mid, b.loc))
+                errs.append("MV(%s@%s)" % (mid, b.eloc))
             else:
-                errs.append("MM(%s@%s)" % (mid, b.loc))
+                errs.append("MM(%s@%s)" % (mid, b.eloc))
     for (mid, args), a in zip(keys, ans):
         if a is None:
             if want_value and any(b.state(mid) != "m" for b in bundles):
@@ -226,6 +227,8 @@ class C16(Base):
     # --- generators ---------------------------------------------------------------------------
     def gen_bundle(self, rng, ids, p_noloc=0.0):
         loc = "_" if rng.random() < p_noloc else rng.choice(LOCALES)
+        if loc != "_" and rng.random() < 0.12:
+            loc = loc + "+" + rng.choice(LOCALES)          # a bundle built with two locales (regional + base language)
         r = rng.random()
         brk = 0 if r < 0.6 else rng.choice([1, 2, 3, 4])
         profile = rng.random()
